@@ -13,6 +13,8 @@ mod formatters;
 mod shape;
 mod sort_requires;
 mod verify_ast;
+#[cfg(stylua_verif)]
+pub mod verif;
 
 /// The Lua syntax version to use
 #[derive(Debug, Default, Copy, Clone, PartialEq, Eq, Deserialize)]
@@ -356,6 +358,8 @@ pub fn format_ast(
 
     let code_formatter = formatters::CodeFormatter::new(ctx);
     let ast = code_formatter.format(input_ast);
+    #[cfg(stylua_verif)]
+    let ast = verif::inject_fault(ast);
 
     // If we are verifying, reparse the output then check it matches the original input
     if let Some(input_ast) = input_ast_for_verification {
